@@ -894,6 +894,10 @@ func (g *keyGen) nextJudged(m *kmModel) []byte {
 		then := []string{":op", ":feed x", "12", "3", ":\x7f"}[t.Draw(5)]
 		return []byte(first + then)
 	}
+	if it, ok := m.current(); ok && g.r.Job.Prop == "C20" && m.mode == "normal" && !m.lost && len(linksOf(it)) > 0 && t.Chance(1, 3) {
+		// run from C20's plan: sessions about which link a number hands to the hook
+		return []byte(fmt.Sprintf("%d\r", 1+t.Draw(len(linksOf(it))+1)))
+	}
 	if m.hookFocus && m.mode == "normal" && !m.lost && t.Chance(1, 3) {
 		// a burst: open a page and move through the history before its surroundings have loaded
 		b := []byte{" cra"[t.Weighted(5, 2, 1, 1)]}
